@@ -40,6 +40,8 @@ type c11Driver struct {
 	Exprs  map[string]string `json:"exprs,omitempty"`
 	Header map[string]string `json:"header,omitempty"`
 	Query  string            `json:"query,omitempty"`
+	Body   string            `json:"body,omitempty"` // http: POST body (with CType)
+	CType  string            `json:"content_type,omitempty"`
 }
 
 type c11Case struct {
@@ -68,6 +70,51 @@ func c11Drivers() []c11Driver {
 		add(fmt.Sprintf("dict-contains-mask%d", mask), "输出以【0，【A=1，B=2，C=3】】（包含："+d+"）")
 		add(fmt.Sprintf("dict-find-mask%d", mask), "输出以【0，【A=1，B=2，C=3】】（寻找："+d+"）")
 		add(fmt.Sprintf("dict-nested-mask%d", mask), "输出【【K=【A=1，B=2，C=3】】】为【【K="+d+"】】")
+	}
+	// dictionaries holding a value that cannot be compared (an object) next to
+	// entries that differ: the verdict (假 or an error) must not depend on which entry is visited first
+	names := []string{"A", "B", "C"}
+	for opos := 0; opos < 3; opos++ {
+		for mask := 0; mask < 4; mask++ {
+			l, rr := make([]string, 3), make([]string, 3)
+			bit := 0
+			for i := range names {
+				if i == opos {
+					l[i], rr[i] = names[i]+"=O", names[i]+"=O"
+					continue
+				}
+				l[i], rr[i] = names[i]+"=1", names[i]+"=1"
+				if mask&(1<<uint(bit)) != 0 {
+					rr[i] = names[i] + "=9"
+				}
+				bit++
+			}
+			pre := "定义型：\n    其P = 1\n令O = （新建型）\n"
+			L, R := "【"+strings.Join(l, "，")+"】", "【"+strings.Join(rr, "，")+"】"
+			for _, op := range []string{"为", "不为", "==", "/="} {
+				add(fmt.Sprintf("dict-object-entry-%s-o%d-mask%d", op, opos, mask), pre+"输出"+L+op+R)
+			}
+			add(fmt.Sprintf("dict-object-entry-contains-o%d-mask%d", opos, mask), pre+"输出以【0，"+L+"】（包含："+R+"）")
+			add(fmt.Sprintf("dict-object-entry-find-o%d-mask%d", opos, mask), pre+"输出以【0，"+L+"】（寻找："+R+"）")
+		}
+	}
+	// JSON documents by shape: 1..2 top-level members, each a scalar, an object of 3, a list of
+	// objects, an object inside an object; key order of every level is observed
+	shapes := []string{`1`, `{"z":1,"y":2,"x":3}`, `[{"z":1,"y":2},{"q":1,"p":2}]`, `{"k":{"z":1,"y":2,"x":3}}`}
+	jsonProg := func(doc string) string {
+		return "导入《@JSON》\n令D = （解析JSON：“" + zn.EncodeStr(doc) + "”）\n输出【D，（生成JSON：D）】"
+	}
+	for i, a := range shapes {
+		doc := `{"m":` + a + `}`
+		add(fmt.Sprintf("json-shape-1-%d", i), jsonProg(doc))
+		ds = append(ds, c11Driver{Name: fmt.Sprintf("http-json-body-1-%d", i), Kind: "http", Source: "输入当前请求\n输出当前请求之内容", Body: doc, CType: "application/json"})
+		for j, b := range shapes {
+			doc := `{"m":` + a + `,"c":` + b + `}`
+			add(fmt.Sprintf("json-shape-2-%d-%d", i, j), jsonProg(doc))
+			if i >= 1 && j == 1 {
+				ds = append(ds, c11Driver{Name: fmt.Sprintf("http-json-body-2-%d-%d", i, j), Kind: "http", Source: "输入当前请求\n输出当前请求之内容", Body: doc, CType: "application/json"})
+			}
+		}
 	}
 	add("dict-different-keys", "输出【A=1，B=2，C=3】为【A=1，B=2，D=3】")
 	add("dict-key-subset", "输出【A=1，B=2】为【A=1，B=2，C=3】")
@@ -162,6 +209,10 @@ func c11RunOnce(d c11Driver, rec *mc.Recorder) (out string) {
 		in := exec.NewInterpreter("verif").SetExternalLibs(zn.Libs())
 		h := server.NewZnHttpHandler(in, entry)
 		req := httptest.NewRequest("GET", "http://h/p?"+d.Query, nil)
+		if d.Body != "" {
+			req = httptest.NewRequest("POST", "http://h/p?"+d.Query, strings.NewReader(d.Body))
+			req.Header.Set("Content-Type", d.CType)
+		}
 		for k, v := range d.Header {
 			req.Header[k] = []string{v}
 		}
@@ -217,6 +268,8 @@ func c11Sig(d c11Driver) string {
 		return "exprinput-first-error-order"
 	case strings.HasPrefix(d.Name, "json-parse") || strings.HasPrefix(d.Name, "json-roundtrip"):
 		return "parse-key-order"
+	case strings.HasPrefix(d.Name, "dict-object-entry"):
+		return "dict-compare-uncomparable-entry-order"
 	case strings.HasPrefix(d.Name, "dict-"):
 		return "dict-compare-first-key"
 	}
@@ -227,7 +280,7 @@ func init() {
 	mc.Register(&mc.Check{
 		ID:    "C11",
 		Level: "model_checking",
-		Rule: "E3: stateless deviation-bounded DFS over map-iteration-order choices. Every range-over-map site of the interpreter (inventoried from the current source with go/types by tools/mapperm and rewritten through a build overlay) is a choice point at each dynamic occurrence with n! alternatives for n <= 3 keys (rotations + reversal above); deviation = an occurrence not in sorted order; bounds 0,1,2 (3 in thorough). Driver programs per site with >= 3 keys and contents chosen so that order matters if it can: dictionary 为/不为/==//= with equal key sets under all 8 patterns of differing values, nested, 包含/寻找 of dictionaries; parsed JSON then 所有索引/iteration; 生成JSON; object creation with 3 defaults; library and module imports (all names, colliding names, cycles); HTTP request headers/query and response headers; expression inputs. Oracle: all executions of one driver are identical in result, display trace and error (class, code, message, rendered report incl. lines). A state = one complete execution under one order vector.",
+		Rule: "E3: stateless deviation-bounded DFS over map-iteration-order choices. Every range-over-map site of the interpreter (inventoried from the current source with go/types by tools/mapperm and rewritten through a build overlay) is a choice point at each dynamic occurrence with n! alternatives for n <= 3 keys (rotations + reversal above); deviation = an occurrence not in sorted order; bounds 0,1,2 (3 in thorough). Driver programs per site with >= 3 keys and contents chosen so that order matters if it can: dictionary 为/不为/==//= with equal key sets under all 8 patterns of differing values, nested, 包含/寻找 of dictionaries; the same with an entry that cannot be compared (an object) at each position x every pattern of differing entries; parsed JSON documents of every shape with 1..2 top-level members over {scalar, object of 3, list of objects, object in object}, shown and re-generated, also as HTTP JSON request bodies; 所有索引/iteration; 生成JSON; object creation with 3 defaults; library and module imports (all names, colliding names, cycles); HTTP request headers/query and response headers; expression inputs. Oracle: all executions of one driver are identical in result, display trace and error (class, code, message, rendered report incl. lines). A state = one complete execution under one order vector.",
 		Assumptions: []string{
 			"only hash-map iteration order is controlled (the source the statement names); Go select, goroutine scheduling and rand are not (取随机数 is excepted by the statement)",
 			"order vectors with more deviations than the bound are not covered; sites no driver reaches are listed in evidence, not reported as violations",
